@@ -338,5 +338,12 @@ func c19WriteConsts(t *testing.T, e *c19Env) {
 	fmt.Fprintf(f, "collateProbe : Bytes := %s\n", c19LeanBytes([]byte(render(c19StyleInPlace, []api.Message{{Role: "user", Content: "a"}, {Role: "user", Content: "b"}}))))
 	fmt.Fprintf(f, "systemJoinProbe : Bytes := %s\n", c19LeanBytes([]byte(render(c19StyleMessages, []api.Message{{Role: "system", Content: "a"}, {Role: "user", Content: "x"}, {Role: "system", Content: "b"}}))))
 	fmt.Fprintf(f, "legacyJoinProbe : Bytes := %s\n", c19LeanBytes([]byte(render(c19StyleLegacy, []api.Message{{Role: "user", Content: "a"}, {Role: "tool", Content: "x"}, {Role: "user", Content: "b"}}))))
+	// the variant of the tree under test, as probed by c19NewEnv (bits: F4 repaired, legacy mode x2, deleteNode
+	// else-list repaired x8, F5 repaired x16), and two of the probes as rendered bytes
+	fmt.Fprintf(f, "variantBits : Nat := %d\n", e.fixed)
+	f4 := e.runReal(&c19Case{style: c19StyleLegacy, limit: 1, msgs: []c19Msg{{role: "u", content: "long long long"}, {role: "s", content: "SYS"}, {role: "u", content: "hi"}}})
+	fmt.Fprintf(f, "f4Probe : Bytes := %s\n", c19LeanBytes([]byte(f4.prompt)))
+	ce := e.runReal(&c19Case{style: c19StyleGenerated, src: `{{ .Prompt }}{{ if .System }}{{ .Response }}{{ else }}x{{ end }}`, limit: 2048, msgs: []c19Msg{{role: "u", content: "hi"}}})
+	fmt.Fprintf(f, "cutElseProbe : Bytes := %s\n", c19LeanBytes([]byte(ce.prompt+ce.panicked)))
 	fmt.Fprintf(f, "legacyOrderProbe : Bytes := %s\n", c19LeanBytes([]byte(render(c19StyleLegacy, []api.Message{{Role: "user", Content: "a"}, {Role: "system", Content: "s"}, {Role: "user", Content: "b"}, {Role: "assistant", Content: "c"}, {Role: "system", Content: "t"}}))))
 }
